@@ -61,6 +61,7 @@ type InputVal struct {
 type RunOpts struct {
 	Opts
 	Rounds         int
+	GoPolicy       string
 	Solver         string // primary backend
 	Alt            string // secondary backend (cross-check / fallback)
 	TimeoutMs      int
@@ -73,6 +74,7 @@ type RunOpts struct {
 func RunCase(prog *ssa.Program, pkg *ssa.Package, harness string, shape map[string]int, ro RunOpts, solvers []*smt.Solver) (res *CaseResult, req *ShapeRequest, err error) {
 	e := NewEngine(prog, pkg, ro.Opts)
 	e.Rounds = ro.Rounds
+	e.GoPolicy = ro.GoPolicy
 	for k, v := range shape {
 		e.Shape[k] = v
 	}
@@ -284,7 +286,11 @@ func RunCase(prog *ssa.Program, pkg *ssa.Package, harness string, shape map[stri
 		} else if r == smt.Unknown {
 			inconclusive = "solver unknown on cover " + cv.ID
 		} else {
-			inconclusive = "cover point unreachable (vacuous harness): " + cv.ID
+			if strings.HasPrefix(cv.ID, "opt:") {
+				res.Covers--
+			} else {
+				inconclusive = "cover point unreachable (vacuous harness): " + cv.ID
+			}
 		}
 	}
 	// 3. unwinding assertions
